@@ -131,19 +131,20 @@ def IsCut : List Bytes → Nat → Prop
 
 /-! ### interface statements between the lemma files (each is proved in the file named) -/
 
-/-- ReadLemmas.lean: a `Read` delivers a prefix of the pending stream and leaves the rest pending -/
+/-- ReadLemmas.lean (`readSpec'`): a `Read` delivers a prefix of the pending stream and leaves the rest pending.
+The range hypothesis excludes the `size_t` wrap-around of `offset_curr_ + size` (false without it, in the C++ too). -/
 def ReadSpec (F : Fmt) : Prop :=
   ∀ (s : Base) (size : Nat) (bytes : Bytes) (s' : Base),
-    read F s size = .ok (bytes, s') → RInv s →
+    read F s size = .ok (bytes, s') → RInv s → totalSize s.files + size < 2 ^ 64 →
     RInv s' ∧ bytes ++ pending F s' = pending F s ∧ bytes.length ≤ size ∧
     (bytes = [] → size = 0 ∨ pending F s = []) ∧
     s'.files = s.files ∧ s'.offBegin = s.offBegin ∧ s'.offEnd = s.offEnd ∧ s'.chunk = s.chunk ∧
     s'.overflow = s.overflow ∧ s'.bufWords = s.bufWords
 
-/-- ReadLemmas.lean: under the invariant `Read` raises no error (the "file offset not calculated
+/-- ReadLemmas.lean (`readTotal'`): under the invariant `Read` raises no error (the "file offset not calculated
 correctly" fatal and the model's iteration bound are unreachable) -/
 def ReadTotal (F : Fmt) : Prop :=
-  ∀ (s : Base) (size : Nat), RInv s → ∃ r, read F s size = .ok r
+  ∀ (s : Base) (size : Nat), RInv s → totalSize s.files + size < 2 ^ 64 → ∃ r, read F s size = .ok r
 
 /-! ### the observable behaviour the property theorems speak about -/
 
